@@ -309,7 +309,7 @@ func countedLoop(an *ir.Analysis, h *ssa.BasicBlock) *Loop {
 					} else if ir.Same(at.Args[1], sym) {
 						b = at.Args[0]
 					}
-					if b != nil && nonNegTerm(b) && !mentions(b, sym) {
+					if b != nil && (nonNegTerm(b) || sizeOfSomethingMade(an, h, b)) && !mentions(b, sym) {
 						l.Op, l.Bound = "!=", b
 						break
 					}
@@ -1043,4 +1043,44 @@ func lockstepRewrite(an *ir.Analysis, l *Loop) func(*ir.Term) *ir.Term {
 		}
 		return ir.Rebuild(t)
 	}
+}
+
+
+// sizeOfSomethingMade: on every way into the loop at h, b was the size of a channel or slice made before (make panics
+// for a negative size), so b is not negative when the loop is reached.
+func sizeOfSomethingMade(an *ir.Analysis, h *ssa.BasicBlock, b *ir.Term) bool {
+	n := 0
+	for _, ps := range an.Segs {
+		for _, p := range ps {
+			if p.To != h || p.From == h {
+				continue
+			}
+			if p.From != nil {
+				return false // reached from another loop: not followed
+			}
+			n++
+			found := false
+			for i := range p.Steps {
+				st := &p.Steps[i]
+				visit := func(t *ir.Term) {
+					if t == nil || found {
+						return
+					}
+					t.Walk(func(x *ir.Term) {
+						if (x.Op == "mkchan" || x.Op == "mkslice") && len(x.Args) > 0 && ir.Same(x.Args[0], b) {
+							found = true
+						}
+					})
+				}
+				for _, a := range st.A {
+					visit(a)
+				}
+				visit(st.R)
+			}
+			if !found {
+				return false
+			}
+		}
+	}
+	return n > 0
 }
